@@ -25,6 +25,8 @@ import re
 
 from vlib import driver
 from vlib.gen import c17_gen as gen
+from vlib.gen import c17_units as units
+from vlib.gen import c17_hist as hist
 from vlib.ref import c17_model as model
 from vlib.runner import Sub, Verdict, fail
 
@@ -75,7 +77,7 @@ class Run:
             if len(parts) != 3 or not parts[0].startswith(self.tmproot + '/'):
                 return groups, 'malformed marker line: %r' % ln
             sds = parts[0][len(self.tmproot) + 1:].split('/')[0]
-            text = parts[2].replace(self.ws_home, '<HOME>')
+            text = _SDS_RE.sub('/<SDS>', parts[2].replace(self.ws_home, '<HOME>').replace(self.ws_root, '<WS>'))
             if groups and groups[-1][0] == sds:
                 groups[-1][1].append((parts[1], text))
             else:
@@ -321,6 +323,338 @@ def check_suite_contents(case) -> Verdict:
     return Verdict(True, nontrivial=nontrivial, labels=sorted(set(labels)), sample=sc_render(case))
 
 
+# ---- suite_symbols --------------------------------------------------------------------------------------------------
+def ss_render(case):
+    files = units.render(case)
+    files['exactly.suite'] = files['exactly.suite'].replace('{CASES}', '\n'.join(
+        case['cases'][i]['id'] + '.case' for i in case['orders'][0]))
+    return '\n'.join('==> %s\n%s' % (p, t) for p, t in sorted(files.items())) + \
+        '\n(orders run: %s)' % case['orders']
+
+
+def _observe_standalone(ws, argv):
+    """-> (Run, (identifier, lines) or None, problem bucket or None)"""
+    run = Run(ws, argv)
+    p = run.process_problem()
+    if p:
+        return run, None, p
+    ident, problem = run.standalone_ident()
+    if problem:
+        return run, None, 'output'
+    groups, problem = run.groups()
+    if problem or len(groups) > 1:
+        return run, None, 'markers'
+    return run, (ident, groups[0][1] if groups else []), None
+
+
+def _ss_kf1_candidates(case, order, pos):
+    """Defect model KF-C17-1: a suite-level `-line-nums` range given by a symbol keeps the text it was resolved to
+    for an earlier case of the same suite run.  -> list of {symbol name: (type, value)} overrides for the case at
+    position `pos` of `order`, one per way of taking the ranges of the line-nums units from earlier cases."""
+    c = case['cases'][order[pos]]
+    per_unit = []
+    for k, ui in enumerate(case['units']):
+        if ui['t'] not in units.LINENUMS_UNITS:
+            continue
+        u = units.BY_ID[ui['t']]
+        roles = [r for r, pool in sorted(u['syms'].items()) if pool == 'RANGE' and ui['suite_defs'].get(r) is None]
+        if not roles:
+            continue
+        choices = [None]
+        for j in order[:pos]:
+            e = case['cases'][j]
+            vals = {}
+            for r in roles:
+                tv = units.pool_value('RANGE', e['defs']['%d.%s' % (k, r)]['v'])
+                if tv is None or tv[0] != 'string':
+                    vals = None  # the earlier case never got as far as resolving the range
+                    break
+                vals[units.sym_name(str(k), r)] = tv
+            if vals and vals not in choices:
+                choices.append(vals)
+        per_unit.append(choices)
+    out = []
+
+    def rec(i, acc):
+        if i == len(per_unit):
+            if acc:
+                out.append(dict(acc))
+            return
+        for ch in per_unit[i]:
+            rec(i + 1, acc + (list(ch.items()) if ch else []))
+
+    rec(0, [])
+    return out[:12]
+
+
+def check_suite_symbols(case) -> Verdict:
+    files = units.render(case)
+    suite_text = files.pop('exactly.suite')
+    cases = case['cases']
+    insts = list(case['units']) + ([case['act']] if case['act'] else [])
+    labels = ['unit:' + ui['t'] for ui in insts] + ['unit-phase:' + ui['phase'] for ui in case['units']]
+    labels.append('cases:%d' % len(cases))
+    n_case_defined = sum(1 for c in cases[:1] for _ in c['defs'])
+    nontrivial = n_case_defined > 0 and len(cases) >= 2
+    differing = 0
+    for key in cases[0]['defs']:
+        if len(set(str(c['defs'][key]['v']) for c in cases)) > 1:
+            differing += 1
+    labels.append('symbols-differing-between-cases:%s' % ('0' if not differing else '1' if differing == 1 else '2+'))
+
+    def listing(order):
+        return suite_text.replace('{CASES}', '\n'.join(cases[i]['id'] + '.case' for i in order))
+
+    def bad(bucket, run=None, **extra):
+        d = {'what': bucket}
+        d.update(extra)
+        if run is not None:
+            d['run'] = run.brief()
+        d['files'] = ss_render(case)
+        return fail('suite_symbols/' + bucket, d, labels=labels, nontrivial=nontrivial)
+
+    known = None
+    with driver.Workspace() as ws:
+        ws.write_files(units.HOME_FILES)
+        ws.write_files(files)
+        ws.write('exactly.suite', listing(case['orders'][0]))
+        ref = {}
+        for c in cases:
+            run, obs, problem = _observe_standalone(ws, [c['id'] + '.case'])
+            if problem == 'timeout':
+                return Verdict(inconclusive=True, labels=labels)
+            if problem:
+                return bad('standalone/' + problem, run)
+            ref[c['id']] = obs
+            labels.append('standalone:' + obs[0])
+            if obs[0] == 'SYNTAX_ERROR':
+                return bad('generated-case-has-syntax-error', run)
+        for order in case['orders']:
+            ws.write('exactly.suite', listing(order))
+            run = Run(ws, ['suite', 'exactly.suite'])
+            p = run.process_problem()
+            if p == 'timeout':
+                return Verdict(inconclusive=True, labels=labels)
+            if p:
+                return bad('suite-run/' + p, run, order=order)
+            events, final, problem = run.suite_events()
+            if problem or run.r.exit_code not in (0, 4):
+                return bad('suite-run/progress-output', run, why=problem, order=order)
+            if [n for n, _ in events] != [cases[i]['id'] + '.case' for i in order]:
+                return bad('suite-run/case-list', run, order=order)
+            groups, problem = run.groups()
+            if problem:
+                return bad('suite-run/markers', run, why=problem, order=order)
+            by_case = {}
+            for _, lines in groups:
+                ids = [t for who, t in lines if who == 'CASE']
+                if len(ids) != 1 or ids[0] in by_case:
+                    return bad('suite-run/markers-not-attributable-to-one-case', run, order=order,
+                               group=['%s|%s' % l for l in lines])
+                by_case[ids[0]] = lines
+            for pos, i in enumerate(order):
+                cid = cases[i]['id']
+                got = (events[pos][1], by_case.get(cid, []))
+                if got == ref[cid]:
+                    continue
+                what = 'identifier/%s/%s' % (ref[cid][0], got[0]) if got[0] != ref[cid][0] else 'observations'
+                # defect model KF-C17-1
+                for override in _ss_kf1_candidates(case, order, pos):
+                    ws.write('kf1-variant.case', units.render_case(case, cases[i], override))
+                    _, pred, problem = _observe_standalone(ws, ['kf1-variant.case'])
+                    if problem is None and pred == got:
+                        known = Verdict(ok=False, known='KF-C17-1',
+                                        bucket='suite_symbols/line-nums-range-of-an-earlier-case',
+                                        detail={'what': what, 'case': cid, 'order': order, 'position': pos,
+                                                'standalone': [ref[cid][0], ['%s|%s' % l for l in ref[cid][1]]],
+                                                'in suite': [got[0], ['%s|%s' % l for l in got[1]]],
+                                                'explained by the ranges of an earlier case': {
+                                                    k: v[1] for k, v in override.items()},
+                                                'files': ss_render(case)},
+                                        labels=labels + ['KF-C17-1'], nontrivial=nontrivial)
+                        break
+                else:
+                    return bad('in-suite-differs-from-standalone/' + what, run, case_file=cid + '.case', order=order,
+                               position_in_suite=pos,
+                               standalone=[ref[cid][0], ['%s|%s' % l for l in ref[cid][1]]],
+                               in_suite=[got[0], ['%s|%s' % l for l in got[1]]])
+            if (final, run.r.exit_code) != (('OK', 0) if all(i in SUCCESS for _, i in events) else ('ERROR', 4)):
+                return bad('suite-run/final', run, order=order)
+    if known is not None:
+        return known
+    return Verdict(True, nontrivial=nontrivial, labels=sorted(set(labels)), sample=ss_render(case))
+
+
+def enum_unit_matrix(tier):
+    """every unit x every symbol of it x every pair of (adjacent: quick / all: thorough) pool values: two cases that
+    differ in that symbol only, both orders"""
+    for u in units.UNITS + units.ACT_UNITS:
+        roles = sorted(u['syms'].items())
+        for role, pool in roles:
+            typ, valid, invalid = units.POOLS[pool]
+            vals = list(range(len(valid))) + [['bad', i] for i in range(len(invalid))] + ['wrong', 'missing']
+            n = len(vals)
+            pairs = [(a, (a + 1) % n) for a in range(n)] if tier == 'quick' else \
+                [(a, b) for a in range(n) for b in range(n) if a != b]
+            for phase in (u['phases'] if tier != 'quick' else [p for p in u['phases'] if p != 'setup'][-2:]):
+                if phase == 'setup':
+                    continue
+                for a, b in pairs:
+                    is_act = u['kind'] == 'ACT'
+                    k = 'A' if is_act else '0'
+                    inst = {'t': u['id'], 'phase': phase, 'suite_defs': {}}
+                    cs = []
+                    for ci, v in enumerate((vals[a], vals[b])):
+                        defs = {'%s.%s' % (k, r): {'v': 0, 'ph': 'setup'} for r, _ in roles}
+                        defs['%s.%s' % (k, role)] = {'v': v, 'ph': 'setup'}
+                        cs.append({'id': 'c%d' % ci, 'defs': defs, 'exit': 0})
+                    yield {'units': [] if is_act else [inst], 'act': inst if is_act else None, 'cases': cs,
+                           'case_act': False, 'orders': [[0, 1], [1, 0]]}
+
+
+# ---- histories ---------------------------------------------------------------------------------------------------
+def hi_render(case):
+    out = ['(orders run: %s; the first %d cases of an order are listed by sub.suite)' % (case['orders'], case['split'])]
+    for c in case['cases']:
+        out.append('==> %s.case\n%s' % (c['id'], hist.render_case(c)))
+    return '\n'.join(out)
+
+
+def _hi_collect(ws, run, ids):
+    """-> {case id: {observation file: normalised text}}; the files are removed"""
+    import json as _json
+    res = {i: {} for i in ids}
+    for fn in sorted(os.listdir(ws.obs)):
+        cid = fn.split('.', 1)[0]
+        if cid not in res or fn.endswith('.cfg'):
+            continue
+        path = os.path.join(ws.obs, fn)
+        with open(path, 'rb') as f:
+            text = f.read().decode('utf-8', errors='replace')
+        os.remove(path)
+        if fn.endswith('.py'):
+            recs = []
+            for ln in text.splitlines():
+                try:
+                    d = _json.loads(ln)
+                except ValueError:
+                    recs.append(ln)
+                    continue
+                d.pop('pid', None)
+                recs.append(_json.dumps(d, sort_keys=True))
+            text = '\n'.join(recs)
+        res[cid][fn] = run.norm(text)
+    return res
+
+
+def _first_diff(a, b):
+    """a, b: {file: text} -> short description of the first difference"""
+    for fn in sorted(set(a) | set(b)):
+        if a.get(fn) != b.get(fn):
+            if fn not in a or fn not in b:
+                return {'file': fn, 'standalone': a.get(fn, '<not written>')[:300], 'in suite': b.get(fn, '<not written>')[:300]}
+            la, lb = a[fn].split('\n'), b[fn].split('\n')
+            return {'file': fn, 'only standalone': [l for l in la if l not in lb][:8],
+                    'only in suite': [l for l in lb if l not in la][:8]}
+    return None
+
+
+def check_histories(case) -> Verdict:
+    cases = case['cases']
+    ids = [c['id'] for c in cases]
+    labels = ['cases:%d' % len(cases), 'orders:%d' % len(case['orders'])]
+    kinds = set()
+    for c in cases:
+        for ph, ops in c['ops'].items():
+            for op in ops:
+                kinds.add(op[0])
+                labels.append('op:' + op[0])
+        for k, v in c['conf'].items():
+            if v:
+                labels.append('conf:%s' % k)
+    if case['split']:
+        labels.append('layout:sub-suite')
+    mutators = {'env', 'envof', 'unset', 'cd', 'timeout', 'def', 'file', 'dir', 'shfile', 'stdin'}
+    observers = {'obs', 'use', 'exists', 'sleep'}
+
+    def is_mut(c):
+        return any(op[0] in mutators for ops in c['ops'].values() for op in ops) or any(c['conf'].values())
+
+    def is_obs(c):
+        return any(op[0] in observers for ops in c['ops'].values() for op in ops) or c['act']['kind'] in ('obs', 'py')
+
+    nontrivial = any(is_mut(cases[o[a]]) and is_obs(cases[o[b]])
+                     for o in case['orders'] for a in range(len(o)) for b in range(a + 1, len(o)))
+
+    def bad(bucket, run=None, **extra):
+        d = {'what': bucket}
+        d.update(extra)
+        if run is not None:
+            d['run'] = run.brief()
+        d['cases'] = hi_render(case)
+        return fail('histories/' + bucket, d, labels=labels, nontrivial=nontrivial)
+
+    with driver.Workspace() as ws:
+        os.makedirs(os.path.join(ws.home, 'hd'))
+        for c in cases:
+            ws.write(c['id'] + '.case', hist.render_case(c))
+        ref = {}
+        for c in cases:
+            ws.probe_cfg(c['id'] + '.py', exit=c['act']['code'], stdout='out-of-%s\n' % c['id'])
+            run = Run(ws, [c['id'] + '.case'], extra_env=hist.EXTRA_ENV)
+            p = run.process_problem()
+            if p == 'timeout':
+                return Verdict(inconclusive=True, labels=labels)
+            if p:
+                return bad('standalone/' + p, run)
+            ident, problem = run.standalone_ident()
+            if problem:
+                return bad('standalone/output', run, why=problem)
+            ref[c['id']] = (ident, _hi_collect(ws, run, ids)[c['id']])
+            labels.append('standalone:' + ident)
+        for order in case['orders']:
+            names = [cases[i]['id'] + '.case' for i in order]
+            k = case['split']
+            if k:
+                ws.write('sub.suite', '\n'.join(names[:k]) + '\n')
+                ws.write('hist.suite', '[suites]\nsub.suite\n[cases]\n' + '\n'.join(names[k:]) + '\n')
+            else:
+                ws.write('hist.suite', '\n'.join(names) + '\n')
+            run = Run(ws, ['suite', 'hist.suite'], extra_env=hist.EXTRA_ENV)
+            p = run.process_problem()
+            if p == 'timeout':
+                return Verdict(inconclusive=True, labels=labels)
+            if p:
+                return bad('suite-run/' + p, run, order=order)
+            events, final, problem = run.suite_events()
+            if problem or run.r.exit_code not in (0, 4):
+                return bad('suite-run/progress-output', run, why=problem, order=order)
+            if [n for n, _ in events] != names:
+                return bad('suite-run/case-list', run, order=order)
+            obs = _hi_collect(ws, run, ids)
+            for pos, i in enumerate(order):
+                cid = cases[i]['id']
+                got = (events[pos][1], obs[cid])
+                if got == ref[cid]:
+                    continue
+                earlier = [cases[j]['id'] for j in order[:pos]]
+                if got[0] != ref[cid][0]:
+                    return bad('outcome-depends-on-earlier-cases/%s/%s' % (ref[cid][0], got[0]), run, case_file=cid,
+                               order=order, earlier_cases=earlier, difference=_first_diff(ref[cid][1], got[1]))
+                d = _first_diff(ref[cid][1], got[1])
+                what = 'observation'
+                txt = str(d)
+                if 'VERIF_' in txt:
+                    what = 'environment'
+                elif '<SDS>' in txt or '<WS>' in txt:
+                    what = 'directories-or-files'
+                return bad('%s-depends-on-earlier-cases' % what, run, case_file=cid, order=order,
+                           earlier_cases=earlier, difference=d)
+            if (final, run.r.exit_code) != (('OK', 0) if all(i in SUCCESS for _, i in events) else ('ERROR', 4)):
+                return bad('suite-run/final', run, order=order)
+    return Verdict(True, nontrivial=nontrivial, labels=sorted(set(labels)), sample=hi_render(case))
+
+
 # ---- the manual still says what the model transcribes -------------------------------------------------------------
 def check_manual(case) -> Verdict:
     with driver.Workspace() as ws:
@@ -372,4 +706,9 @@ SUBS = [
         shards={'quick': 1, 'thorough': 1}),
     Sub('suite_contents', check_suite_contents, strategy=lambda tier: gen.suite_with_contents(),
         budget={'quick': 600, 'thorough': 15000}, render=sc_render),
+    Sub('symbol_units_matrix', check_suite_symbols, enumerate=enum_unit_matrix, exhaustive=True, render=ss_render),
+    Sub('suite_symbols', check_suite_symbols, strategy=lambda tier: units.suites_with_symbol_consumers(tier),
+        budget={'quick': 400, 'thorough': 10000}, render=ss_render),
+    Sub('histories', check_histories, strategy=lambda tier: hist.histories(tier),
+        budget={'quick': 300, 'thorough': 8000}, render=hi_render),
 ]
